@@ -187,7 +187,7 @@ func signature(v string) string {
 
 // raceSupplement builds the free-running harness with -race and runs it; it can only add true reports.
 func raceSupplement(r *ev.Run) {
-	bin := "/verif/.work/bin/c09race"
+	bin := ev.Home + "/.work/bin/c09race"
 	repo := ev.RepoDir
 	args := []string{"build", "-race", "-tags", "verif", "-o", bin}
 	if repo != "/repo" {
@@ -197,7 +197,7 @@ func raceSupplement(r *ev.Run) {
 	}
 	args = append(args, "./cmd/c09race")
 	cmd := exec.Command("go", args...)
-	cmd.Dir = "/verif/engine"
+	cmd.Dir = ev.Home + "/engine"
 	cmd.Env = append(os.Environ(), "GOFLAGS=-mod=mod", "GOPROXY=off", "GOSUMDB=off", "GOTOOLCHAIN=local", "GOWORK=off", "CGO_ENABLED=1")
 	if out, err := cmd.CombinedOutput(); err != nil {
 		r.Set("race_supplement", "not run: -race build failed: "+ev.Clip(string(out), 300))
